@@ -1603,7 +1603,11 @@ def _wrap_td_method(
                 return self
 
             if isinstance(result, tuple):
-                return tuple(deliver_result(self, r, kwargs) for r in result)
+                delivered = (deliver_result(self, r, kwargs) for r in result)
+                if hasattr(result, "_fields"):
+                    # namedtuple: keep the type (and the field names)
+                    return type(result)(*delivered)
+                return tuple(delivered)
             return deliver_result(self, result, kwargs)
 
         return wrapped_func
